@@ -24,7 +24,7 @@ CLASSES = ["array", "linked_list", "dlinked_list"]
 NA = {"seq": ["OpSetSame", "OpSetPart", "OpSet", "OpMapGet", "OpMapRemove", "OpDelPair", "OpListing", "OpDelListing"],
       "vec": ["OpSetSame", "OpSetPart", "OpSet", "OpMapGet", "OpMapRemove", "OpDelPair", "OpListing", "OpDelListing", "OpGiveRefused"],
       "map": ["OpGive", "OpGiveRefused", "OpTakeBack", "OpTakeFirst", "OpLend", "OpToArray", "OpFreeArray"]}
-VALS = {2: "1,1", 3: "1,1,2", 4: "1,1,2,2"}      # handles carrying EQUAL values: identity vs equality
+VALS = {2: "0,1", 3: "0,0,1", 4: "0,0,1,1"}      # handles carrying EQUAL values: identity vs equality; 0 = the empty text
 
 
 def init(n):
@@ -75,6 +75,9 @@ def run(ctx):
     # the small value classes (pairs, tokenizers, URLs, regexps): SmallObj.tla lifecycles with per-script heap balance
     from checks import c05
     c05.small_objects(ctx)
+    # dup of str / ustr / mbuff values held with spare capacity, incl. the EMPTY value that owns a buffer: the copy owns its own
+    # storage (nothing is released twice when both are deleted)
+    c05.cmp_tables(ctx, probes_only=True)
     # str / ustr: size sweeps, long sprintf outputs into strings that already own a buffer, strings with spare capacity - with a
     # per-call heap account (checks/c01.py, harness/str_replay.c)
     from checks import c01
